@@ -29,6 +29,12 @@ def check(ctx: Ctx) -> None:
     ctx.rule("R11.2", "the offset residual is weights × a function of (reconstruction + offset − ln|X|): zero-weight points cannot influence the offset, a common shift of ln|X| shifts the offset by the same amount; all-zero and negative weights are refused")
     ctx.rule("R11.3", "X_fit = rect(exp(ln_modulus + offset), phase) with the phase of the same (interpolation, smoothing) entry the reconstruction was computed from")
     ctx.rule("R11.4", "window weights: support [center − width/2, center + width/2] on log f, clipped to [0, 1]")
+    ctx.rule("R11.5", "the Z-HIT pipeline (smoothing, interpolation, reconstruction, offset, weights) keeps no state between calls: no memoising decorator, no module-level container read or written (except the registry of window callables)")
+    from ..effects import stateless_rule
+    zmods = tuple(sorted(m for m in ctx.repo.modules if m == Z or m.startswith(Z + ".")))
+    ctx.modules_consulted.update(zmods)
+    stateless_rule(ctx, model, "R11.5", zmods, 15, "a second call in the same process no longer smooths/reconstructs from its own input alone (constant and linear phase data are not left unchanged)",
+                   allowed={(WGT, "_WINDOW_FUNCTIONS"): "registry of SciPy window callables filled once at first use; holds functions, not data"})
     ctx.assumptions += ["scipy.integrate.quad integrates the interpolator it is given; lmfit.minimize finds the minimiser of the weighted residual"]
 
     # ---------------- R11.1 ---------------------------------------------------------
@@ -45,21 +51,43 @@ def check(ctx: Ctx) -> None:
     else:
         ctx.violation("R11.1", "_reconstruct:gamma", REC, gdef[0], f"γ is {gamma}; the Z-HIT approximation uses −π/6")
     apps = [c for c in calls_in(rc.node) if norm(c.func) == "ln_modulus.append"]
-    if len(apps) != 2:
-        raise AnalysisError(f"_reconstruct: expected two append sites (impedance/admittance), found {len(apps)}")
+    if not apps:
+        raise AnalysisError("_reconstruct: no ln_modulus.append site found")
     want = 2 / sp.pi * I_ + gamma * D_
+    from ..cfg import dominating_conditions
+    covered = set()
     for c in apps:
-        iff = parent(parent(c))
-        branch = "admittance" if isinstance(iff, ast.If) and norm(iff.test) == "admittance" and parent(c) in iff.body else "impedance"
-        try:
-            t = sp.sympify(ti.ev(c.args[0], {"integral": I_, "derivative": D_, "gamma": gamma}))
-        except Unsupported as e:
-            raise AnalysisError(f"_reconstruct: reconstruction expression outside the term fragment: {e}")
-        ctx.instance("R11.1", f"{branch}: ln|X| = {t}")
-        if sp.simplify(t - want) == 0:
-            ctx.ok()
-        else:
-            ctx.violation("R11.1", f"_reconstruct:formula:{branch}", REC, c, f"the {branch} branch reconstructs {t} instead of 2/π·∫φ + γ·φ' = {want}")
+        conds = [(norm(e), pol) for e, pol in dominating_conditions(c, stop=rc.node)]
+        for adm in (False, True):
+            if any((e == "admittance" and pol != adm) or (e == "not admittance" and pol == adm) for e, pol in conds):
+                continue
+            branch = "admittance" if adm else "impedance"
+            env = {"integral": I_, "derivative": D_, "gamma": gamma, "admittance": adm}
+            # auxiliary locals used by the expression (e.g. a sign chosen from the representation)
+            for nm in sorted({x.id for x in ast.walk(c.args[0]) if isinstance(x, ast.Name)} - set(env) - {"pi"}):
+                b_ = [n for n in walk_ordered(rc.node) if isinstance(n, (ast.Assign, ast.AnnAssign)) and n.value is not None and norm(n.targets[0] if isinstance(n, ast.Assign) else n.target) == nm]
+                if len(b_) != 1:
+                    raise AnalysisError(f"_reconstruct: {nm} used in the reconstruction has {len(b_)} bindings")
+                v = b_[0].value
+                if isinstance(v, ast.IfExp) and norm(v.test) in ("admittance", "not admittance"):
+                    take_body = adm if norm(v.test) == "admittance" else not adm
+                    v = v.body if take_body else v.orelse
+                try:
+                    env[nm] = ti.ev(v, dict(env))
+                except Unsupported as e:
+                    raise AnalysisError(f"_reconstruct: auxiliary {nm} outside the term fragment: {e}")
+            try:
+                t = sp.sympify(ti.ev(c.args[0], env))
+            except Unsupported as e:
+                raise AnalysisError(f"_reconstruct: reconstruction expression outside the term fragment: {e}")
+            covered.add(adm)
+            ctx.instance("R11.1", f"{branch}: ln|X| = {t}")
+            if sp.simplify(t - want) == 0:
+                ctx.ok()
+            else:
+                ctx.violation("R11.1", f"_reconstruct:formula:{branch}", REC, c, f"in the {branch} representation the reconstruction is {t} instead of 2/π·∫φ + γ·φ' = {want}")
+    if covered != {False, True}:
+        raise AnalysisError(f"_reconstruct: append sites cover only admittance ∈ {covered}")
     q = [c for c in calls_in(rc.node) if dotted(c.func) == "quad"]
     ctx.instance("R11.1", "integration bounds: from ln ω of the first frequency to ln ω_0 of the current one, integrand = the phase interpolator")
     ok = len(q) == 1
